@@ -187,6 +187,24 @@ def run(ctx):
     ok = bool(lay) and cfg.must_pass(cfg.stmt_of(rel[0]), lambda n: isinstance(n, ast.If) and norm(n.test) == "layout") and \
         not any(pol is not True for t, pol, _ in flow.controlling(lay[0], fn) if norm(t) == "layout")
     ctx.ob("C12.R4", site, "when a layout is given it is applied before relocation", ok and cfg.reachable(cfg.stmt_of(lay[0]), cfg.stmt_of(rel[0])), construct="layout-before-reloc")
+    # every step of link() that can DEFINE a symbol (it reaches inject_symbol / merge_global_symbol through Linker methods) lies before the check
+    lk = ctx.project.modules[L].defs
+    meths = {q.split(".", 1)[1]: n for q, n in lk.items() if q.startswith("Linker.") and q.count(".") == 1 and isinstance(n, ast.FunctionDef)}
+    def self_calls(f):
+        return {c.func.attr for c in ast.walk(f) if isinstance(c, ast.Call) and isinstance(c.func, ast.Attribute) and isinstance(c.func.value, ast.Name) and c.func.value.id == "self" and c.func.attr in meths}
+    definers = {"inject_symbol", "merge_global_symbol"} & set(meths)
+    ctx.need(len(definers) == 2, "Linker.inject_symbol / merge_global_symbol not found")
+    grew = True
+    while grew:
+        grew = False
+        for m, f in meths.items():
+            if m not in definers and m != "link" and self_calls(f) & definers:
+                definers.add(m); grew = True
+    dcalls = [c for c in ast.walk(fn) if isinstance(c, ast.Call) and isinstance(c.func, ast.Attribute) and norm(c.func.value) == "self" and c.func.attr in definers]
+    ctx.need(len(dcalls) >= 4, "link: fewer than 4 symbol-defining steps recognised (%d)" % len(dcalls))
+    late = sorted({c.func.attr for c in dcalls for k in chk_st if k is not None and cfg.stmt_of(c) is not None and cfg.reachable(k, cfg.stmt_of(c))})
+    ctx.ob("C12.R4", site, "no step that can define a symbol (entry / extra symbols, merged objects, library members, DEFINESYMBOL of the layout) runs after the undefined-symbol check: a name the layout defines is not undefined", bool(chk) and not late, construct="definers-before-undef-check",
+           detail="after the check: %s; defining steps: %s" % (late, sorted({c.func.attr for c in dcalls})))
     fn = ctx.fn(L, "Linker.check_undefined_symbols")
     site = L + ":Linker.check_undefined_symbols"
     ok = False
